@@ -1,7 +1,6 @@
 SPECIFICATION Spec
-CONSTANTS MaxTok = 8 MaxDepth = 3
-  Leaves <- LeavesFull
-  RootKinds <- AllRoots
+CONSTANTS MaxDepth = 3
+  Families <- FamSim
   StoreByCopy = TRUE
   TailKeepsSets = TRUE
 INVARIANT SeenIsExpected
